@@ -281,6 +281,25 @@ def search(ctx):
             if pl.sizes.get('z') != len(dl):
                 ctx.violation("C17:list-stack", "propagate(x, list) has %r slices for %d distances" % (pl.sizes.get('z'), len(dl)),
                               dict(kind="list", ds=dl, **info))
+            # the choice of length unit is immaterial: the same scene with every length multiplied by u (metres ... nanometres),
+            # including distances that are a small fraction of the wavelength
+            if i % 2 == 0:
+                u = float(10.0 ** rng.integers(-9, 4))
+                frac = float(rng.choice([1.0, 1.0, 10.0 ** rng.uniform(-3, -1)]))
+                da, db = d1 * frac, d2 * frac
+                imu = data_grid(im.values.squeeze(), spacing=sp * u, medium_index=1.33, illum_wavelen=0.66 * u, illum_polarization=(1, 0))
+                ctx.tried("propagate-units", (nx, ny, u, round(da, 6), round(db, 6)))
+                for dd in (da, db):
+                    ref = propagate(im, dd, cfsp=cfsp).values.squeeze()
+                    got = propagate(imu, dd * u, cfsp=cfsp).values.squeeze()
+                    if not (_rel(got, ref) <= 1e-9):
+                        ctx.violation("C17:units", "the same scene with lengths x %g: propagate by %g x %g differs from the unscaled result (rel %.3g)" % (u, dd, u, _rel(got, ref)),
+                                      dict(kind="units", unit=u, d=dd, **info))
+                        break
+                pu = propagate(imu, [da * u, db * u], cfsp=cfsp)
+                if pu.sizes.get('z') != 2 or not (_rel(pu.isel(z=0).values.squeeze(), propagate(im, da, cfsp=cfsp).values.squeeze()) <= 1e-9):
+                    ctx.violation("C17:units-list", "lengths x %g: propagate(x, [d1, d2]) has %r slices or its first slice differs from propagate(x, d1)" % (u, pu.sizes.get('z')),
+                                  dict(kind="units", unit=u, ds=[da, db], **info))
         except Exception as ex:
             ctx.violation("C17:propagate-raises:%s" % type(ex).__name__, "propagate raised %r" % (ex,), dict(kind="raises", **info))
     ctx.sample(dict(kind="search", shapes_exhaustive_upto=top, laws=["zero", "energy", "coords/attrs", "compose", "inverse", "linear", "list=stack"]))
